@@ -128,7 +128,7 @@ def _history(case):
         bdf = gen.bins_df(bins)
         base = []  # (path, uri) of coolers over the base table
         for step in range(case["steps"]):
-            opts = ["create", "create_chunks", "create_unsorted_chunks", "unordered", "empty", "bigcounts"]
+            opts = ["create", "create_chunks", "create_unsorted_chunks", "unordered", "empty", "bigcounts", "empty_extra", "unsigned"]
             if base:
                 opts += ["merge", "merge", "coarsen", "coarsen", "zoomify", "append"]
             if step == 0:
@@ -157,6 +157,46 @@ def _history(case):
                 q = newfile()
                 impl(cooler.merge_coolers, q, [p], mergebuf=3)
                 r = _check_file(q, "merge of bigcounts", trail)
+                if r:
+                    return r
+                continue
+            elif op == "empty_extra":
+                # no chunk at all, with a supplementary value column: every pixel column must end up with length nnz = 0;
+                # then the same through merge and coarsen of that file
+                p = newfile()
+                trail.append(["create-empty-stream-with-extra-column"])
+                impl(cooler.create_cooler, p, bdf, iter([]), symmetric_upper=symm, ordered=True, columns=["count", "score"],
+                     dtypes={"score": "float64"})
+                r = _check_file(p, "empty stream, extra column", trail)
+                if r:
+                    return r
+                q = newfile()
+                impl(cooler.merge_coolers, q, [p, p], mergebuf=3, columns=["count", "score"])
+                r = _check_file(q, "merge of empty coolers with an extra column", trail)
+                if r:
+                    return r
+                if n >= 2:
+                    q2 = newfile()
+                    impl(cooler.coarsen_cooler, p, q2, 2, 3, columns=["count", "score"])
+                    r = _check_file(q2, "coarsen of an empty cooler with an extra column", trail)
+                    if r:
+                        return r
+                continue
+            elif op == "unsigned":
+                # the count column GIVEN as uint32 with a value beyond int32 (stored dtype: the default int32): refused, or
+                # stored exactly (C01.checkedWrite) — the monitor then compares the stored column with the `sum` attribute
+                p = newfile()
+                vals = [[i, j, v] for i, j, v in px[:4]] or [[0, 0, 1]]
+                df = gen.pixels_df(vals)
+                cnt = np.array([v for _, _, v in vals], dtype=np.uint32)
+                cnt[len(cnt) // 2] = np.uint32(3000000000 + len(cnt))
+                df["count"] = cnt
+                trail.append(["create-count-given-as-uint32", [int(x) for x in cnt]])
+                try:
+                    cooler.create_cooler(p, bdf, df, symmetric_upper=symm, ordered=True)
+                except ValueError:
+                    continue              # refused: allowed
+                r = _check_file(p, "count given as uint32 beyond int32", trail)
                 if r:
                     return r
                 continue
@@ -405,6 +445,9 @@ def cases(tier, rng):
         yield "history", {"seed": sd, "n": 14 + sd % 3, "symm": True, "var": False, "layout": [14 + sd % 3], "steps": 2, "scool": sd % 2 == 0,
                           "ops": ["create", "zoomify2"]}
     yield "history", {"seed": 25, "n": 5, "symm": True, "var": False, "layout": [3, 2], "steps": 2, "scool": True, "ops": ["bigcounts", "create"]}
+    # third-wave seeded changes: empty stream with an extra value column; count given in an unsigned dtype
+    yield "history", {"seed": 26, "n": 6, "symm": True, "var": False, "layout": [4, 2], "steps": 3, "scool": False,
+                      "ops": ["create", "empty_extra", "unsigned"]}
     yield "rlencode", {"xs": [0, 0, 1, 1, 1, 3], "chunks": [1, 2, 3, 4, 5, 6, 7]}
     yield "index", {"xs": [2, 2, 5], "n": 7}
     yield "index", {"xs": [], "n": 3}
